@@ -211,6 +211,26 @@ def _work(item):
                         viols.append((f"{name}(..., seed={seed}) differs between two calls with identical arguments; before the "
                                       f"first call: {list(pre) or 'nothing'}, between the calls: {list(seq) or 'nothing'}",
                                       {"name": name, "grid": gi, "seed": seed, "pre": list(pre), "seq": list(seq)}))
+        # the same *argument objects* handed to several calls (a network built once and randomised / laid out repeatedly):
+        # nothing a call leaves behind on its arguments may influence the next result
+        import copy
+
+        import xgi
+
+        a2, k2 = copy.deepcopy(args), copy.deepcopy(kwargs)
+        with warnings.catch_warnings():
+            warnings.simplefilter("ignore")
+            f = getattr(xgi, name)
+            r1 = norm(f(*a2, **k2, seed=seed))
+            for seq in [(), ("draw-random",), ("same-function-other-seed",), ("reseed-numpy",)]:
+                for p in seq:
+                    P[p]()
+                r2 = norm(f(*a2, **k2, seed=seed))
+                n += 1
+                if r2 != r1 and len(viols) < 3:
+                    viols.append((f"{name}(..., seed={seed}) differs between two calls on the *same argument objects*; between the "
+                                  f"calls: {list(seq) or 'nothing'}",
+                                  {"name": name, "grid": gi, "seed": seed, "pre": [], "seq": list(seq), "shared_args": True}))
     except Exception as e:  # noqa: BLE001
         return {"item": [name, gi, seed], "n": n, "viols": viols, "error": f"{type(e).__name__}: {e}", "distinct": len(distinct)}
     return {"item": [name, gi, seed], "n": n, "viols": viols, "error": None, "distinct": len(distinct)}
@@ -270,11 +290,22 @@ def replay(case):
     P["same-function-other-seed"] = lambda: _same_other(name, G[name], seed)
     for p in case["pre"]:
         P[p]()
-    r1 = norm(_call(name, args, kwargs, seed))
-    bad = 0
-    for _ in range(3):
-        for p in case["seq"]:
-            P[p]()
-        r2 = norm(_call(name, args, kwargs, seed))
-        bad += r2 != r1
+    if case.get("shared_args"):
+        import copy
+
+        import xgi
+
+        a2, k2 = copy.deepcopy(args), copy.deepcopy(kwargs)
+        call = lambda: getattr(xgi, name)(*a2, **k2, seed=seed)  # noqa: E731 - the same argument objects every time
+    else:
+        call = lambda: _call(name, args, kwargs, seed)  # noqa: E731
+    with warnings.catch_warnings():
+        warnings.simplefilter("ignore")
+        r1 = norm(call())
+        bad = 0
+        for _ in range(3):
+            for p in case["seq"]:
+                P[p]()
+            r2 = norm(call())
+            bad += r2 != r1
     return [f"{name}(seed={seed}) differs in {bad} of 3 repeated calls"] if bad else []
